@@ -132,6 +132,10 @@ class PeerSocket(object):
         if self.reset:
             raise ConnectionResetError(errno.ECONNRESET, "Connection reset by peer")
         if not self.out:
+            if getattr(self, "reset_after", False):
+                self.reset_after = False
+                self.reset = True
+                raise ConnectionResetError(errno.ECONNRESET, "Connection reset by peer")
             if self.peer_closed:
                 return 0
             raise AssertionError("client would block forever: the scripted peer has nothing to say")
@@ -215,7 +219,10 @@ class PeerSocket(object):
         if self.peer.responder is not None and b in ("OK_KA", "OK_CLOSE"):
             data, close = self.peer.responder(self.peer, req, parsed)
             self._emit(data)
-            self.peer_closed = close or b == "OK_CLOSE"
+            if close == "reset":
+                self.reset_after = True  # the connection is reset once the bytes emitted so far have been read
+            else:
+                self.peer_closed = close or b == "OK_CLOSE"
             return
         if b == "OK_KA":
             self._emit(http_resp(200, "OK", good))
